@@ -1521,6 +1521,9 @@ theorem extLoop_spec (raw : Bytes) : ∀ (fuel nht offset length : Nat) (acc : L
     rw [if_neg cn]
     by_cases c44 : nht = 44
     · rw [if_pos c44]
+      by_cases c8 : length < 8
+      · rw [if_pos c8]; exact .inl ⟨_, rfl, by intro a b c e h; simp at h⟩
+      rw [if_neg c8]
       by_cases cf : (if vr.ip6Clamp = true then raw.length < offset + 8 else length < offset + 8)
       · rw [if_pos cf]; exact .inl ⟨_, rfl, by intro a b c e h; simp at h⟩
       rw [if_neg cf]
